@@ -257,11 +257,13 @@ Section Ops.
   Qed.
 
   Lemma k_symlink_spec target m fs fs' t : parent_ok P fs -> k_symlink target dst m fs = Ok (fs', t) ->
-    effect P fs fs' t.
+    effect P fs fs' t /\ kind_at P fs' = Some KLink.
   Proof.
     intros H. unfold k_symlink, dst. destruct target; [discriminate|].
     destruct (resolve_at fs P false P_ne P_real H (fun e => no_follow_ok e fs)) as [E|E]; rewrite E; [discriminate|].
-    destruct (lookup P fs) eqn:L; [discriminate|]. intros A. apply at_loc_spec in A as [-> U]. right; eauto.
+    destruct (lookup P fs) eqn:L; [discriminate|]. intros A. apply at_loc_spec in A as [-> U].
+    split; [right; eauto|]. apply upd_at in U as (r & Fr & Lr). injection Fr as <-.
+    unfold kind_at. now rewrite Lr.
   Qed.
 
   Lemma k_unlink_spec fs fs' t : parent_ok P fs -> k_unlink dst fs = Ok (fs', t) ->
